@@ -254,6 +254,31 @@ func runFOUNDCHECK(c *Ctx) {
 			if !found {
 				continue
 			}
+			if name == "findEntry" {
+				// Delete(key, value) removes the entry only if the stored value matches: the found return is
+				// also dominated by DeepEqual(stored value, the value parameter) having come out true
+				valOK := false
+				for _, f := range ir.FactsAt(r.Block()) {
+					call, ok := f.Cond.(*ssa.Call)
+					if !ok || !f.Truth {
+						continue
+					}
+					if sc := ir.Callee(call.Call); sc == nil || sc.String() != "reflect.DeepEqual" {
+						continue
+					}
+					for _, a := range call.Call.Args {
+						if p, isP := ir.ResolveCell(ir.Strip(a)).(*ssa.Parameter); isP && p.Parent() == fn {
+							valOK = true
+						}
+					}
+				}
+				if valOK {
+					c.OK(P.InstrPos(r), "'found' result of "+name+": value", "dominated by DeepEqual(stored value, value argument) == true", false)
+				} else {
+					c.Violation(fn, P.InstrPos(r), "'found' without confirming the value",
+						"a delete with a non-matching value must fail without effect; on some path the entry is reported found although DeepEqual(stored value, given value) did not come out true")
+				}
+			}
 			if equalFact(r.Block()) {
 				c.OK(P.InstrPos(r), "'found' result of "+name, "dominated by a key comparison that came out equal", false)
 			} else {
